@@ -137,6 +137,53 @@ theorem C01_e2e_row_is_wallet_plus_markets (S : Setup) (src : Option Int) (w : W
   generalize (if S.aaveQuote = S.quote then some (1 : Rat) else AList.get? (S.prices src) S.aaveQuote) = o5
   cases oa <;> cases o0 <;> cases o1 <;> cases o2 <;> cases o3 <;> cases o4 <;> cases o5 <;> rfl
 
+/-- the independent valuation of a world: wallet value `a`, then every market's raw holdings converted by `c_m`; `dv` = what the option
+    market is worth (cash + options at mark on the hourly grid, see the two corollaries), `av` = the Aave market's quantised value -/
+def Core.e2eSum (S : Setup) (w : World) (row : Uni.Row) (amt : Uni.Pos → Rat × Rat) (a c0 c1 c2 c3 c4 c5 dv av : Rat) : Rat :=
+  a + Uni.sumOver (Uni.posValue S.pool row.price amt) w.uni.positions * c0 +
+        Squeeth.sumIf (fun kp => !kp.2.transferred) (Squeeth.poolVal w.env) w.sq.positions * c1 +
+        ((Squeeth.sumIf (fun kp => kp.2.transferred) (Squeeth.idxVal w.env) w.sq.positions + (w.sq.vaults.map (·.2.coll)).sum) * w.env.weth -
+          (w.sq.vaults.map (·.2.short)).sum * (w.env.osqth * w.env.weth)) * c2 +
+        (w.gmx.glp * w.genv.glpPrice + w.gmx.reward * (w.genv.wavaxPrice / 10 ^ 30)) * c3 +
+        dv * c4 +
+        av * c5
+
+/-- the general form: `dv` is whatever the option market's `get_market_balance` reports in `w` -/
+theorem C01_e2e_row_value_gen (S : Setup) (hK : S.K.cx = NumCtx.exact) (hcx : S.cx = NumCtx.exact) (hder : S.derCx = Deribit.DCtx.exact)
+    (haave : S.aaveCx = aaveExact) (src : Option Int) (w : World)
+    (dv : Rat) (hdv : nvOfDer (Deribit.getMarketBalance Deribit.DCtx.exact S.derCfg w.derIn).1 = dv)
+    (hgood : Aave.Good aaveExact w.aenv w.aaveIn) (ab : Aave.Balance)
+    (hab : (Aave.step aaveExact w.aenv w.aaveIn (.read .marketBalance)).1 = .ok (.bal ab))
+    (row : Uni.Row) (sqrt : Nat) (amt : Uni.Pos → Rat × Rat) (hrow : w.uni.row = some row)
+    (hsqrt : S.K.priceToSqrt S.pool row.price = .ok sqrt)
+    (hamt : ∀ p ∈ w.uni.positions, p.transferred = false → S.K.amounts S.pool sqrt p.lower p.upper p.liq p.liqDec = .ok (amt p))
+    (bs : Squeeth.Balance) (hbs : Squeeth.marketBalance NumCtx.exact w.env w.sqIn = .ok bs)
+    (honce : Squeeth.Once w.sq) (hnv : (w.sq.vaults.map (·.1)).Nodup) (hnp : (w.sq.positions.map (·.1)).Nodup)
+    (a c0 c1 c2 c3 c4 c5 : Rat) (ha : specWallet (S.prices src) w.wallet = some a) (h0 : S.conv src S.pool.quoteTok = some c0)
+    (h1 : S.conv src Gen.sqWethName = some c1) (h2 : S.conv src S.sqQuote = some c2) (h3 : S.conv src S.gmxQuote = some c3)
+    (h4 : S.conv src S.derCfg.token = some c4) (h5 : S.conv src S.aaveQuote = some c5) :
+    (∃ ts tb, Aave.specTotalSupply aaveExact w.aenv w.aave.supplies = .ok ts ∧ Aave.specTotalBorrows aaveExact w.aenv w.aave.borrows = .ok tb ∧
+      |ab.netValue - (ts - tb)| ≤ 1 / 10000) ∧
+    (acctRow NumCtx.exact (marketsValuation S) src w).map (·.netValue) =
+      some (e2eSum S w row amt a c0 c1 c2 c3 c4 c5 dv ab.netValue) := by
+  refine ⟨by
+    obtain ⟨ts, tb, h1, h2, _, _, h3⟩ := C01_aave_net_value_within_quantum w.aaveIn hgood ab hab
+    exact ⟨ts, tb, h1, h2, h3⟩, ?_⟩
+  obtain ⟨b, hb, hnet, _⟩ := C01_uni_balance_eq_spec S.K hK S.pool w.uniIn row sqrt amt hrow hsqrt hamt
+  -- the Squeeth side: raw-state formula, then the lent positions instead of the vaults' references
+  obtain ⟨cs, hcs, _, _, hsnet, _⟩ := C01_squeeth_balance_from_raw_state w.env w.sqIn bs hbs
+  have hsum := Squeeth.sum_effColl w.env w.sqIn w.sqIn.vaults cs (Squeeth.get?_of_mem _ hnv) hcs
+  rw [Squeeth.sum_lentPart w.env w.sqIn (e2e_once_wallet honce w.wallet) hnv hnp] at hsum
+  rw [C01_e2e_row_is_wallet_plus_markets, ha, h0, h1, h2, h3, h4, h5, hcx, hder, hdv, haave, hb, hbs, hab,
+    C01_squeeth_pool_value_is_sum_over_free, (C01_gmx_v1_balance w.genv w.gmxIn).1]
+  simp only [nvOfUni, nvOfSq, nvOfAave, hnet, hsnet, hsum]
+  show some _ = some _
+  congr 1
+  show _ = _
+  unfold e2eSum
+  simp only [World.sqIn, World.uniIn, World.gmxIn]
+  ring
+
 /-- **C01 end to end, one row.**  In any world `w` in which the three `get_market_balance` calls return (market 0: a status row, its
     price converts, every free position's amounts compute; Squeeth: the balance `bs`), with the count invariant and dict-shaped
     containers, and with the prices present: the row's net value is the independent valuation — wallet at the bar's prices, plus every
@@ -165,23 +212,31 @@ theorem C01_e2e_row_value (S : Setup) (hK : S.K.cx = NumCtx.exact) (hcx : S.cx =
         (w.gmx.glp * w.genv.glpPrice + w.gmx.reward * (w.genv.wavaxPrice / 10 ^ 30)) * c3 +
         (w.der.cash + Deribit.markValue S.derCfg w.der.book w.der.positions) * c4 +
         ab.netValue * c5) := by
-  refine ⟨by
-    obtain ⟨ts, tb, h1, h2, _, _, h3⟩ := C01_aave_net_value_within_quantum w.aaveIn hgood ab hab
-    exact ⟨ts, tb, h1, h2, h3⟩, ?_⟩
   obtain ⟨bd, hbd, hdnet, _⟩ := C01_deribit_open_bar_value S.derCfg w.derIn hgrid
-  obtain ⟨b, hb, hnet, _⟩ := C01_uni_balance_eq_spec S.K hK S.pool w.uniIn row sqrt amt hrow hsqrt hamt
-  -- the Squeeth side: raw-state formula, then the lent positions instead of the vaults' references
-  obtain ⟨cs, hcs, _, _, hsnet, _⟩ := C01_squeeth_balance_from_raw_state w.env w.sqIn bs hbs
-  have hsum := Squeeth.sum_effColl w.env w.sqIn w.sqIn.vaults cs (Squeeth.get?_of_mem _ hnv) hcs
-  rw [Squeeth.sum_lentPart w.env w.sqIn (e2e_once_wallet honce w.wallet) hnv hnp] at hsum
-  rw [C01_e2e_row_is_wallet_plus_markets, ha, h0, h1, h2, h3, h4, h5, hcx, hder, haave, hb, hbs, hbd, hab,
-    C01_squeeth_pool_value_is_sum_over_free, (C01_gmx_v1_balance w.genv w.gmxIn).1]
-  simp only [nvOfUni, nvOfSq, nvOfDer, nvOfAave, hnet, hsnet, hsum, hdnet]
-  show some _ = some _
-  congr 1
-  show _ = _
-  simp only [World.sqIn, World.uniIn, World.gmxIn, World.derIn]
-  ring
+  exact C01_e2e_row_value_gen S hK hcx hder haave src w _ (by rw [hbd]; exact hdnet) hgood ab hab row sqrt amt hrow hsqrt hamt bs hbs
+    honce hnv hnp a c0 c1 c2 c3 c4 c5 ha h0 h1 h2 h3 h4 h5
+
+/-- … and on a bar OFF the hourly grid (most bars of a minutely backtest) the option market reports its cache: the premium of the last
+    valuation, with the current cash — the design the property text records ("cached value on bars where the market is closed");
+    everything else as above -/
+theorem C01_e2e_row_value_off_grid (S : Setup) (hK : S.K.cx = NumCtx.exact) (hcx : S.cx = NumCtx.exact) (hder : S.derCx = Deribit.DCtx.exact)
+    (haave : S.aaveCx = aaveExact) (src : Option Int) (w : World) (hgrid : w.der.onGrid = false) (bc : Deribit.Balance)
+    (hcache : w.der.cache = some bc)
+    (hgood : Aave.Good aaveExact w.aenv w.aaveIn) (ab : Aave.Balance)
+    (hab : (Aave.step aaveExact w.aenv w.aaveIn (.read .marketBalance)).1 = .ok (.bal ab))
+    (row : Uni.Row) (sqrt : Nat) (amt : Uni.Pos → Rat × Rat) (hrow : w.uni.row = some row)
+    (hsqrt : S.K.priceToSqrt S.pool row.price = .ok sqrt)
+    (hamt : ∀ p ∈ w.uni.positions, p.transferred = false → S.K.amounts S.pool sqrt p.lower p.upper p.liq p.liqDec = .ok (amt p))
+    (bs : Squeeth.Balance) (hbs : Squeeth.marketBalance NumCtx.exact w.env w.sqIn = .ok bs)
+    (honce : Squeeth.Once w.sq) (hnv : (w.sq.vaults.map (·.1)).Nodup) (hnp : (w.sq.positions.map (·.1)).Nodup)
+    (a c0 c1 c2 c3 c4 c5 : Rat) (ha : specWallet (S.prices src) w.wallet = some a) (h0 : S.conv src S.pool.quoteTok = some c0)
+    (h1 : S.conv src Gen.sqWethName = some c1) (h2 : S.conv src S.sqQuote = some c2) (h3 : S.conv src S.gmxQuote = some c3)
+    (h4 : S.conv src S.derCfg.token = some c4) (h5 : S.conv src S.aaveQuote = some c5) :
+    (acctRow NumCtx.exact (marketsValuation S) src w).map (·.netValue) =
+      some (e2eSum S w row amt a c0 c1 c2 c3 c4 c5 (if bc.cash = w.der.cash then bc.netValue else w.der.cash + bc.premium) ab.netValue) := by
+  obtain ⟨b', hb', _, _, _, _, hnet'⟩ := C01_deribit_closed_bar_value Deribit.DCtx.exact S.derCfg w.derIn bc hgrid hcache
+  exact (C01_e2e_row_value_gen S hK hcx hder haave src w _ (by rw [hb']; exact hnet') hgood ab hab row sqrt amt hrow hsqrt hamt bs hbs
+    honce hnv hnp a c0 c1 c2 c3 c4 c5 ha h0 h1 h2 h3 h4 h5).2
 
 /-- **C01 end to end, every bar of every run.**  For every configuration, trigger list, script, setup (pool, kernel, data, price rows,
     decoding of labels) and start world: the rows of a run that ends normally are, bar by bar, `get_account_status` at that bar's price
